@@ -6,7 +6,9 @@ import re
 SIMPLE_IDENTS = ["Alpha", "BetaGamma", "RedGreenBlue", "Xy", "DeltaEcho", "FoxtrotGolfHotel", "India", "JulietKilo",
                  "LimaMike", "November", "OscarPapa", "QuebecRomeoSierra", "Tango", "UniformVictor", "WhiskeyXray", "YankeeZulu",
                  # non-ASCII letters whose case mapping is one-to-one (no ß, no dotted/dotless i)
-                 "ÉcranTitre", "ÜberGross", "ÑandúÁgil"]
+                 "ÉcranTitre", "ÜberGross", "ÑandúÁgil",
+                 # digits: never a word boundary of their own; an upper-case letter after a digit starts a word
+                 "Http2", "Ipv6Only", "Sha256Sum"]
 
 STYLES = ["camelCase", "PascalCase", "kebab-case", "snake_case", "SCREAMING_SNAKE_CASE", "SCREAMING-KEBAB-CASE",
           "lowercase", "UPPERCASE", "title_case", "mixed_case", "Train-Case"]
@@ -15,7 +17,7 @@ STYLES = ["camelCase", "PascalCase", "kebab-case", "snake_case", "SCREAMING_SNAK
 def words(ident):
     w = []
     for ch in ident:
-        assert ch.isalpha(), ident
+        assert ch.isalpha() or (ch.isdigit() and w), ident
         if ch.isupper() or not w:
             w.append(ch)
         else:
